@@ -353,7 +353,8 @@ class RuntimeContext:
         if not unprovided(route):
             # entering an item / key / field of the current level: index 0 and key '' are routes too
             self.routes.append(route)
-        else:
+        elif cls is not None:
+            # a new (nested) data class level
             self.depth += 1
 
         self.errors = []
